@@ -33,6 +33,7 @@ type Job struct {
 	Params  json.RawMessage `json:"params"`
 	Dir     string          `json:"dir"` // scratch directory of this job (created by the parent)
 	Race    bool            `json:"race"`
+	ASan    bool            `json:"asan"` // run with the AddressSanitizer build (C code of SQLite instrumented)
 	Timeout int             `json:"timeout_s"`
 	Env     []string        `json:"env,omitempty"`
 }
@@ -54,6 +55,7 @@ type Result struct {
 	TimedOut bool   `json:"timed_out"`
 	WallS    float64 `json:"wall_s"`
 	RaceReports int `json:"race_reports"`
+	ASanReports int `json:"asan_reports"`
 	RaceLog  string `json:"race_log,omitempty"`
 }
 
@@ -218,6 +220,15 @@ func (r *Runner) RunOne(j *Job) *Result {
 		exe = r.RaceExe
 		env = append(env, "GORACE=halt_on_error=0 exitcode=0 log_path="+raceLog+" history_size=2")
 	}
+	if j.ASan {
+		if _, err := os.Stat(r.Exe + "-asan"); err != nil {
+			res := NewResult(j)
+			res.Inconclusive = append(res.Inconclusive, "asan binary not available")
+			return res
+		}
+		exe = r.Exe + "-asan"
+		env = append(env, "ASAN_OPTIONS=detect_leaks=0:halt_on_error=1:abort_on_error=0")
+	}
 	stderrPath := filepath.Join(j.Dir, "stderr.txt")
 	stderrF, _ := os.Create(stderrPath)
 	// timeout(1) delivers SIGQUIT first so that a goroutine dump lands in stderr, then SIGKILL
@@ -260,6 +271,14 @@ func (r *Runner) RunOne(j *Job) *Result {
 		res.Stderr = tail(stderrPath, 6000)
 		if res.ExitCode != 0 && !res.TimedOut {
 			res.Crashed = true
+		}
+	}
+	if j.ASan {
+		if b, err := os.ReadFile(stderrPath); err == nil {
+			res.ASanReports = bytes.Count(b, []byte("ERROR: AddressSanitizer"))
+			if res.ASanReports > 0 {
+				res.Stderr = tail(stderrPath, 8000)
+			}
 		}
 	}
 	if j.Race {
